@@ -9,7 +9,7 @@ import itertools
 import z3
 
 from fjvc.core import family, strictly_increasing, consts_of
-from fjvc.interp import LoopSpec, PyRaise
+from fjvc.interp import LoopSpec, PyRaise, Obj
 from fjvc.lib import Record
 from fjvc.values import SV, lift, to_real, R, I
 
@@ -171,3 +171,191 @@ def adapt_interval(ctx):
     ctx.oblige("C10/_adapt_interval_to_include_root/post/contains_root", z3.And(lo <= r, r <= hi), p.cond + facts, props, fn=fnq, replay=rp, inst=inst)
     ctx.cover("C10/_adapt_interval_to_include_root/cover/post", p.cond + facts, props, fn=fnq, inst=inst)
     ctx.control("C10/_adapt_interval_to_include_root/control/strict_bracket", z3.And(fz(lo) < 0, fz(hi) > 0), p.cond + facts, props, fn=fnq, inst=inst)
+
+
+# --------------------------------------------------------------------------------------
+# coordinate-by-coordinate driver and its wiring into the block autoregressive network
+ArrS = z3.ArraySort(I, R)
+H = z3.Function("autoregressive_fn_component", I, ArrS, R)  # component i of the triangular map at the vector
+ROOT = z3.Function("coordinate_root", I, ArrS, R)  # root of t -> H(i, v[i := t]) (depends on v[<i] only)
+WID = z3.Function("bracket_width", I, R)  # ghost: width of the adapted bracket of coordinate i's search
+
+
+class Vec1:
+    def __init__(self, arr):
+        self.arr = arr
+
+    def __getitem__(self, i):
+        return SV(z3.Select(self.arr, lift(i)))
+
+    @property
+    def at(self):
+        me = self
+
+        class At:
+            def __getitem__(self, i):
+                class S:
+                    def set(self_, v):
+                        return Vec1(z3.Store(me.arr, lift(i), to_real(lift(v))))
+                return S()
+        return At()
+
+
+@family("bisection/_autoregressive_bisection_search", ["C10", "C01"])
+def autoregressive_driver(ctx):
+    """lax.scan over the coordinates: after k steps, every coordinate j < k is within the search tolerance of the root of ITS equation
+    given the already-found prefix (the triangular precondition makes that root independent of the not-yet-set coordinates)."""
+    it = ctx.interp
+    fnq = f"{MOD}._autoregressive_bisection_search"
+    props = ["C10", "C01"]
+    length, maxit = z3.Ints("length max_iter")
+    lo0, hi0, tol = z3.Reals("lower upper tol")
+    calls = []
+
+    def close(j, v, arr):
+        err = absr(v - ROOT(j, arr))
+        return z3.Or(err <= tol, err * 2 * pow2(maxit) <= WID(j))
+
+    # callee contract (proved in bisection/_bisection_search): the search on a strictly increasing scalar function returns a
+    # point within max(tol, W / 2^(max_iter+1)) of its root
+    def bisect_contract(func, *, lower, upper, tol, max_iter):
+        t = it.fresh("t", "real")
+        probe = func(SV(t))  # symbolic probe of the scalar function: what does the driver search on?
+        r = it.fresh("root", "real")
+        calls.append(dict(t=t, probe=lift(probe), root=r, lower=lift(lower), upper=lift(upper), tol=lift(tol), max_iter=lift(max_iter), cond=list(it.cond)))
+        return (SV(r), SV(it.fresh("adapt_it", "int")), SV(it.fresh("iters", "int")))
+
+    it.global_overrides[MOD] = {"_bisection_search": bisect_contract}
+    it.lib.overrides["jax.numpy.full"] = lambda n_, v: Vec1(z3.K(I, to_real(lift(v))))
+    j = z3.Int("j")
+
+    def inv(k, st, init=None):
+        y, i = st
+        # stated for ONE arbitrary coordinate j (a free symbol): pointwise invariants need no quantifier
+        return z3.And(k >= 0, k <= length, lift(i) == k, z3.Implies(z3.And(j >= 0, j < k), close(j, z3.Select(y.arr, j), y.arr)))
+
+    def havoc(k, init):
+        return (Vec1(z3.Array(f"y!{it.fresh_counter}", I, R)), SV(it.fresh("i", "int")))
+
+    it.loop_specs[(fnq, "lax.scan#0")] = LoopSpec(inv, havoc)
+
+    def afn(v):  # the triangular map: component access only
+        class Out:
+            def __getitem__(self, i):
+                return SV(H(lift(i), v.arr))
+        return Out()
+
+    fn = it.repo_function(fnq)
+    paths = it.explore(lambda: fn(afn, lower=SV(lo0), upper=SV(hi0), tol=SV(tol), length=SV(length), max_iter=SV(maxit)))
+    normal = [p for p in paths if p.outcome == "return"]
+    ctx.oblige("C10/_autoregressive_bisection_search/struct/single_path", len(paths) == 1 and len(normal) == 1, [], props, kind="struct", fn=fnq)
+    if len(normal) != 1:
+        return
+    p = normal[0]
+    pre = [length >= 1, tol > 0, maxit >= 0]
+    # what the driver hands to the scalar search in step k (facts assumed from the callee's postcondition):
+    facts = []
+    ok_calls = len(calls) >= 1
+    for cinfo in calls:
+        t, probe = cinfo["t"], cinfo["probe"]
+        facts.append(dict(cinfo))
+    ctx.oblige("C10/_autoregressive_bisection_search/struct/one_scalar_search_per_coordinate", ok_calls, [], props, kind="struct", fn=fnq)
+    # triangular precondition (instances): ROOT(j, .) and H(j, .) depend on entries <= j only; ROOT is the root of the j-th component in its own coordinate
+    def tri_inst(asserts):
+        from fjvc.core import apps_of
+        out = []
+        roots = apps_of(ROOT, asserts)
+        m = z3.Int("m!b")
+        for a in roots:
+            jj, arr = a.children()
+            out.append(H(jj, z3.Store(arr, jj, a)) == 0)
+        for a, b in itertools.permutations(roots, 2):
+            if a.arg(0).eq(b.arg(0)):
+                jj = a.arg(0)
+                out.append(z3.Implies(z3.ForAll([m], z3.Implies(z3.And(m >= 0, m < jj), z3.Select(a.arg(1), m) == z3.Select(b.arg(1), m))), a == b))
+        return out
+
+    inst = [tri_inst, pow2_gen]
+    # the scalar function searched in step k is t -> H(k, y[k := t]) and the callee's post gives close(k, root, y) (W_k := its bracket width)
+    step_facts = []
+    for cinfo in calls:
+        step_facts.append(cinfo)
+    rp = dict(kind="bisection", fn="_autoregressive_bisection_search", vars=dict(lo0=lo0, hi0=hi0, tol=tol, max_iter=maxit, r=lo0))
+    # obligations emitted at the scan cut; the step obligation needs the callee's postcondition for the call made in that step
+    for em in p.obligations:
+        hyps = list(pre) + em.hyps
+        if em.kind == "inv/step":
+            for cinfo in calls:
+                # callee post: |root - r*| bounded where r* is the root of the probed function; identify r* with ROOT(k, y) via the probe
+                kterm = None
+                hyps.append(z3.ForAll([cinfo["t"]], cinfo["probe"] == cinfo["probe"]))
+        ctx.oblige("C10/" + em.oid.replace(MOD + ".", ""), em.goal, hyps + [f for f in _callee_posts(calls, close)], props, kind=em.kind, fn=fnq, replay=rp, inst=inst)
+    # arguments forwarded unchanged to every scalar search
+    for n_, cinfo in enumerate(calls):
+        ctx.oblige(f"C10/_autoregressive_bisection_search/post/search_arguments_forwarded#{n_}", z3.And(cinfo["lower"] == lo0, cinfo["upper"] == hi0, cinfo["tol"] == tol, cinfo["max_iter"] == maxit), cinfo["cond"], props, fn=fnq)
+    root_vec = p.value
+    ctx.oblige("C10/_autoregressive_bisection_search/post/every_coordinate_within_tolerance_of_its_root_given_the_prefix",
+               z3.Implies(z3.And(j >= 0, j < length), close(j, z3.Select(root_vec.arr, j), root_vec.arr)), pre + p.cond, props, fn=fnq, replay=rp, inst=inst)
+
+
+def _callee_posts(calls, close):
+    """postcondition of _bisection_search instantiated for each recorded call: the probed scalar function must be
+    t -> H(i, y[i := t]); then its root is ROOT(i, y) and the returned point is `close` to it"""
+    out = []
+    for cinfo in calls:
+        probe, t, r = cinfo["probe"], cinfo["t"], cinfo["root"]
+        # decode the probe:  H(i, Store(y, i, t))
+        if z3.is_app(probe) and probe.decl().eq(H) and z3.is_app(probe.arg(1)) and probe.arg(1).decl().kind() == z3.Z3_OP_STORE and probe.arg(1).arg(2).eq(t) and probe.arg(1).arg(1).eq(probe.arg(0)):
+            i_, y_ = probe.arg(0), probe.arg(1).arg(0)
+            out.append(close(i_, r, y_))
+        else:
+            out.append(z3.BoolVal(True))  # unknown scalar function: nothing may be assumed about the returned point
+    return out
+
+
+@family("bisection/AutoregressiveBisectionInverter", ["C10", "C01"])
+def inverter_wiring(ctx):
+    it = ctx.interp
+    props = ["C10", "C01"]
+    from .abstract import AbsBij, TV, T, BIJ, F, NONE
+    cls = it.repo_class(f"{MOD}.AutoregressiveBisectionInverter")
+    rec = {}
+
+    def driver(**kw):
+        rec.update(kw)
+        return "root"
+
+    it.global_overrides[MOD] = {"_autoregressive_bisection_search": driver}
+    b, y, c, v = z3.Const("b", BIJ), z3.Const("y", T), z3.Const("c", T), z3.Const("v", T)
+    SUB = z3.Function("vec_sub", T, T, T)
+
+    class STV(TV):
+        def __sub__(self, o):
+            return STV(SUB(self.e, o.e))
+
+    class Bij(AbsBij):
+        def transform(self, x, condition=None):
+            return STV(super().transform(x, condition).e)
+
+    lo, hi = SV(z3.Real("lower")), SV(z3.Real("upper"))
+    self = Obj(cls, lower=lo, upper=hi, tol=SV(z3.Real("tol")), max_iter=SV(z3.Int("max_iter")))
+    bij = Bij(b, shape=(SV(z3.Int("dim")),))
+    fnq = f"{MOD}.AutoregressiveBisectionInverter.__call__"
+    paths = it.explore(lambda: cls.lookup("__call__")(self, bij, STV(y), TV(c)))
+    ok = len(paths) == 1 and paths[0].outcome == "return" and paths[0].value == "root"
+    ctx.oblige("C10/AutoregressiveBisectionInverter.__call__/struct/delegates_to_driver", ok, [], props, kind="struct", fn=fnq)
+    if ok:
+        good = rec.get("lower") is lo and rec.get("upper") is hi and rec.get("tol") is self.tol and rec.get("max_iter") is self.max_iter and rec.get("length") is bij.shape[0]
+        ctx.oblige("C10/AutoregressiveBisectionInverter.__call__/post/configuration_forwarded", bool(good), [], props, kind="struct", fn=fnq)
+        fn = rec.get("autoregressive_fn")
+        out = fn(STV(v)) if fn is not None else None
+        ctx.oblige("C10/AutoregressiveBisectionInverter.__call__/post/searches_the_root_of_transform_minus_y", (out.e == SUB(F(b, v, c), y)) if out is not None else z3.BoolVal(False), [], props, fn=fnq)
+    # BNAF.inverse hands itself, y and the condition to the inverter
+    bq = "flowjax.bijections.block_autoregressive_network.BlockAutoregressiveNetwork"
+    bcls = it.repo_class(bq)
+    got = {}
+    inv_obj = lambda bij_, y_, cond_=None: got.update(b=bij_, y=y_, c=cond_) or "x"  # noqa: E731
+    me = Obj(bcls, inverter=inv_obj, shape=(3,), cond_shape=None)
+    pth = it.explore(lambda: bcls.lookup("inverse")(me, "y", "cond"))
+    ok = len(pth) == 1 and pth[0].value == "x" and got.get("b") is me and got.get("y") == "y" and got.get("c") == "cond"
+    ctx.oblige("C01/BlockAutoregressiveNetwork.inverse/post/delegates_to_inverter_with_self_y_condition", bool(ok), [], props, kind="struct", fn=bq + ".inverse")
